@@ -21,7 +21,7 @@ def parseXFiles (toks : List String) : Option (List XFile) :=
           let t ← t.toNat?
           let sz ← sz.toNat?
           let v ← (match v with
-            | "d" => some Vis.default | "p" => some Vis.protected | "h" => some Vis.hidden | "i" => some Vis.internal
+            | "d" => some Vis.dflt | "p" => some Vis.prot | "h" => some Vis.hid | "i" => some Vis.intern
             | _ => none)
           some ({ f with syms := f.syms ++ [{ name := n, defined := d == "1", isLocal := l == "1", weak := w == "1",
                                               vis := v, type := t, size := sz }] } :: rest)
@@ -36,7 +36,7 @@ def sortDedup (l : List Nat) : List Nat :=
 def joinNats (l : List Nat) : String := ",".intercalate (l.map toString)
 
 def visChar : Vis → String
-  | .default => "d" | .protected => "p" | .hidden => "h" | .internal => "i"
+  | .dflt => "d" | .prot => "p" | .hid => "h" | .intern => "i"
 
 /-- `st <s|e> <exportAll 0|1> <list: - or n,n,..> <vslocal: - or n,n,..> files...`
 answers `X=<exported names> I=<imported names> N=<sh_info> T=<symtab entries name/file/bind/vis/type/size ...>`. -/
